@@ -44,6 +44,7 @@ func ruleF10BSI(p *Prog) *RuleResult {
 				ins   ssa.Instruction
 				fn    *ssa.Function
 				kills bool
+				spawned bool // the parameter is handed to a go / defer statement
 			}
 			var uses []use
 			var collect func(g *ssa.Function, isParam func(ssa.Value) bool)
@@ -51,6 +52,13 @@ func ruleF10BSI(p *Prog) *RuleResult {
 				for _, b := range g.Blocks {
 					for _, ins := range b.Instrs {
 						switch x := ins.(type) {
+						case *ssa.Go, *ssa.Defer:
+							cc := x.(ssa.CallInstruction).Common()
+							for _, a := range cc.Args {
+								if isParam(a) {
+									uses = append(uses, use{ins: ins, fn: g, spawned: true})
+								}
+							}
 						case *ssa.Call:
 							for ai, a := range x.Call.Args {
 								if !isParam(a) {
@@ -58,7 +66,7 @@ func ruleF10BSI(p *Prog) *RuleResult {
 								}
 								name := calleeName(&x.Call)
 								kills := ai == 1 && len(x.Call.Args) >= 2 && isEBM(x.Call.Args[0]) && (strings.HasSuffix(name, ").AndNot") || strings.HasSuffix(name, ").Xor"))
-								uses = append(uses, use{x, g, kills})
+								uses = append(uses, use{ins: x, fn: g, kills: kills})
 							}
 						case *ssa.MakeClosure:
 							cl := x.Fn.(*ssa.Function)
@@ -117,8 +125,13 @@ func ruleF10BSI(p *Prog) *RuleResult {
 					continue
 				}
 				switch {
+				case u.spawned:
+					if _, isGo := u.ins.(*ssa.Go); isGo && u.fn == f && kill.fn == f && waitSeparates(f, []ssa.Instruction{u.ins}, kill.ins) {
+						continue
+					}
+					bad = fmt.Sprintf("the parameter is handed to the go/defer statement at %s, which is not ordered before the removal at %s", p.ipos(u.ins), p.ipos(kill.ins))
 				case u.fn != kill.fn:
-					if kill.fn == f && waitSeparates(f, u.fn, kill.ins) {
+					if kill.fn == f && waitSeparates(f, makesOf(f, u.fn), kill.ins) {
 						continue
 					}
 					bad = fmt.Sprintf("the removal at %s runs in a different goroutine/function literal than the use at %s, with no ordering between them", p.ipos(kill.ins), p.ipos(u.ins))
@@ -146,18 +159,27 @@ func ruleF10BSI(p *Prog) *RuleResult {
 	return res
 }
 
-// waitSeparates: every creation of the function literal lit in f happens before a
-// (*sync.WaitGroup).Wait call that dominates the instruction at, and lit is not created after that call.
-func waitSeparates(f, lit *ssa.Function, at ssa.Instruction) bool {
-	var waits []ssa.Instruction
+// makesOf: the instructions of f that create the function literal lit.
+func makesOf(f, lit *ssa.Function) []ssa.Instruction {
 	var makes []ssa.Instruction
+	for _, b := range f.Blocks {
+		for _, ins := range b.Instrs {
+			if mc, ok := ins.(*ssa.MakeClosure); ok && mc.Fn == ssa.Value(lit) {
+				makes = append(makes, ins)
+			}
+		}
+	}
+	return makes
+}
+
+// waitSeparates: a (*sync.WaitGroup).Wait call of f precedes the instruction at on every path, and
+// none of the spawning instructions (creation of a worker literal, go statement) can execute after it.
+func waitSeparates(f *ssa.Function, makes []ssa.Instruction, at ssa.Instruction) bool {
+	var waits []ssa.Instruction
 	for _, b := range f.Blocks {
 		for _, ins := range b.Instrs {
 			if c, ok := ins.(*ssa.Call); ok && calleeName(&c.Call) == "(*sync.WaitGroup).Wait" {
 				waits = append(waits, ins)
-			}
-			if mc, ok := ins.(*ssa.MakeClosure); ok && mc.Fn == ssa.Value(lit) {
-				makes = append(makes, ins)
 			}
 		}
 	}
